@@ -18,6 +18,8 @@ structure Inv (s : State) : Prop where
   idxNodup : s.stakedIdx.Nodup
   chain : ∀ x : Bytes × Addr, x ∈ s.chainIdx ↔ ∃ v, aget s.vals x.2 = some v ∧ v.status = .staked ∧ x.1 ∈ v.chains
   queue : ∀ (t : Int) (a : Addr), a ∈ getQ s t ↔ ∃ v, aget s.vals a = some v ∧ v.status = .unstaking ∧ v.unstTime = t
+  waitNodup : s.waiting.Nodup
+  qNodup : (s.unstQ.map (·.1)).Nodup
 
 /-- the record admitted at an address by a replacement -/
 structure NewOk (a : Addr) (new : Option Val) : Prop where
@@ -36,6 +38,8 @@ structure Replaces (s s' : State) (a : Addr) (new : Option Val) : Prop where
   queue : ∀ (t : Int) (b : Addr), b ∈ getQ s' t ↔ (b ∈ getQ s t ∧ b ≠ a) ∨
     (∃ v, new = some v ∧ v.status = .unstaking ∧ b = a ∧ v.unstTime = t)
   pool : s'.pool = s.pool - contribOpt (aget s.vals a) + contribOpt new
+  waiting : s'.waiting = s.waiting
+  qNodup : (s'.unstQ.map (·.1)).Nodup
 
 theorem aget_replaced {s s' : State} {a : Addr} {new : Option Val} (h : Replaces s s' a new) (b : Addr) :
     aget s'.vals b = if b = a then new else aget s.vals b := by
@@ -47,7 +51,7 @@ theorem aget_replaced {s s' : State} {a : Addr} {new : Option Val} (h : Replaces
 theorem Inv.replace {s s' : State} (hi : Inv s) {a : Addr} {new : Option Val} (hn : NewOk a new)
     (h : Replaces s s' a new) : Inv s' := by
   have hg := aget_replaced h
-  refine ⟨?_, ?_, ?_, ?_, ?_, ?_, h.idxNodup, ?_, ?_⟩
+  refine ⟨?_, ?_, ?_, ?_, ?_, ?_, h.idxNodup, ?_, ?_, by rw [h.waiting]; exact hi.waitNodup, h.qNodup⟩
   · rw [h.vals]
     cases new with
     | some v => exact nodup_aset hi.nodup a v
@@ -242,9 +246,10 @@ theorem Inv.queue_time {s : State} (hi : Inv s) {a : Addr} {v : Val} (hv : aget 
 
 /-- states that differ only in fields the invariant does not read -/
 theorem Inv.congr {s s' : State} (hi : Inv s) (h1 : s'.vals = s.vals) (h2 : s'.stakedIdx = s.stakedIdx)
-    (h3 : s'.chainIdx = s.chainIdx) (h4 : s'.unstQ = s.unstQ) (h5 : s'.pool = s.pool) : Inv s' := by
+    (h3 : s'.chainIdx = s.chainIdx) (h4 : s'.unstQ = s.unstQ) (h5 : s'.pool = s.pool)
+    (h6 : s'.waiting.Nodup) : Inv s' := by
   have hq : ∀ t, getQ s' t = getQ s t := fun t => by unfold getQ; rw [h4]
-  refine ⟨?_, ?_, ?_, ?_, ?_, ?_, ?_, ?_, ?_⟩
+  refine ⟨?_, ?_, ?_, ?_, ?_, ?_, ?_, ?_, ?_, h6, by rw [h4]; exact hi.qNodup⟩
   · rw [h1]; exact hi.nodup
   · rw [h1]; exact hi.keys
   · rw [h1]; exact hi.nonneg
